@@ -1164,6 +1164,16 @@ func (o *ovsdbClient) monitor(ctx context.Context, cookie MonitorCookie, reconne
 	}
 
 	if err != nil {
+		if !reconnecting {
+			// the monitor is not established: a reader must not wait for
+			// its contents
+			delete(db.monitors, cookie.ID)
+			o.metrics.numMonitors.Dec()
+			if len(db.monitors) == 0 {
+				db.deferUpdates = false
+				db.deferredUpdates = make([]*bufferedUpdate, 0)
+			}
+		}
 		return err
 	}
 
